@@ -530,6 +530,18 @@ func init() {
 						exempt = "identity guard: escaping would not change the string"
 					}
 				}
+				if exempt == "" && x != nil {
+					// `if !raw && needsEscape(s) { escaped } else { as it is }`: the raw write is entered from two edges —
+					// the raw-text element, or the identity guard — and each of them is an exemption
+					if enteredOnlyUnder(h.At.Block(), func(cnd ssa.Value, want bool) bool {
+						if r, _ := p.rawTextCond(cnd, want); r {
+							return true
+						}
+						return p.identityGuardOn(cnd, want, x)
+					}) {
+						exempt = "raw-text element, or identity guard: every way in is one of the two"
+					}
+				}
 				if exempt != "" {
 					c.ok(key, p.instrPos(h.At), kind+" written raw: "+exempt)
 					continue
